@@ -240,8 +240,11 @@ def run_case(case):
                         pairs = list(zip(va, vb))
                     else:
                         pairs = [(va, vb)]
+                    # the passes re-associate sums (hoisted temporaries, fused loops): rounding differs at the level of
+                    # eps x (number of terms) x (largest value written to this array), not relative to each entry
+                    scale = max([1.0] + [abs(x) for x, _ in pairs])
                     for x, y in pairs:
-                        if abs(x - y) > 1e-12 * max(1.0, abs(x)):
+                        if abs(x - y) > 1e-10 * scale:
                             bad = f"{key}: {x} before the passes, {y} after"
                             break
                     if bad:
